@@ -123,6 +123,11 @@ def main() -> int:
     args = ap.parse_args()
 
     env.install_virtual_monotonic()
+    if args.shard % 3 == 2:
+        # an application that configures warnings once, at start-up, before it imports anything (python -W always / PYTHONWARNINGS):
+        # whatever the library does to the filters when it is imported comes after that - and in front of it
+        warnings.simplefilter("always")
+        os.environ["VF_WARNINGS_CONFIGURED_EARLY"] = "1"
     faulthandler.enable()
     # a hang dumps stacks shortly before the runner's watchdog kills the worker
     faulthandler.dump_traceback_later(
